@@ -98,6 +98,43 @@ static void p_split_set(const std::tuple<S, bool> &c, pbt::Ctx &ctx)
   ctx.nt(hasOneCharToken(runs(s, delims)) && want.size() >= 2);
   ctx.label(keep ? "keep" : "nokeep");
 }
+// bytes >= 0x80 (UTF-8 text, Latin-1) are ordinary content unless they are themselves delimiters; each one used
+// here has a 7-bit "twin" among the delimiters / the content (0xA0~' ', 0xAC~',', 0xE1~'a')
+static void p_split_highbit(const std::tuple<S, bool, int> &c, pbt::Ctx &ctx)
+{
+  const S &s = std::get<0>(c);
+  bool keep = std::get<1>(c);
+  const S delims = std::get<2>(c) % 2 ? S(", ") : S(",\xA0");
+  VS got = utility::split(s, delims, keep);
+  VS want;
+  size_t i = 0;
+  while (i < s.size()) {
+    if (delims.find(s[i]) != S::npos) {
+      ++i;
+      continue;
+    }
+    size_t b = i;
+    while (i < s.size() && delims.find(s[i]) == S::npos)
+      ++i;
+    S tok = s.substr(b, i - b);
+    if (keep && b != 0)
+      tok = S(1, s[b - 1]) + tok;
+    want.push_back(tok);
+  }
+  PBT_ASSERT_MSG(got == want, "split of a string with bytes >= 0x80 (delims " << (std::get<2>(c) % 2 ? "', '" : "',\\xA0'") << ", keep=" << keep << ") got " << got.size() << " tokens, want " << want.size());
+  VS got1 = utility::split(s, ',');
+  S joined, stripped;
+  for (auto &t : got1)
+    joined += t;
+  for (char ch : s)
+    if (ch != ',')
+      stripped.push_back(ch);
+  PBT_ASSERT_MSG(joined == stripped, "split(s, ',') lost or altered non-delimiter bytes");
+  bool high = false;
+  for (char ch : s)
+    high = high || (unsigned char)ch >= 0x80;
+  ctx.nt(high && want.size() >= 2);
+}
 static void p_tokenize(const S &s, pbt::Ctx &ctx)
 {
   VS got;
@@ -113,6 +150,46 @@ static void p_tokenize(const S &s, pbt::Ctx &ctx)
   ctx.nt(hasOneCharToken(want) && want.size() >= 2);
   if (hasOneCharToken(want))
     ctx.label("one-char-token");
+}
+// tokens far longer than any plausible fixed buffer (inline value lists, long paths)
+static void p_tokenize_long(const std::tuple<std::vector<int>, int> &c, pbt::Ctx &ctx)
+{
+  static const int lens[] = {1, 2, 255, 256, 999, 1000, 1001, 4095, 4096, 5000, 70000};
+  VS want;
+  S s;
+  int sep = std::get<1>(c);
+  size_t k = 0;
+  for (int sel : std::get<0>(c)) {
+    size_t len = (size_t)lens[((sel % 11) + 11) % 11];
+    S tok(len, (char)('a' + k % 26));
+    tok[len / 2] = 'M';
+    if (!s.empty() || (sep & 1))
+      s += S((size_t)(1 + (sep >> 1) % 2), ':');
+    s += tok;
+    want.push_back(tok);
+    ++k;
+  }
+  if (sep & 4)
+    s += ":";
+  VS got;
+  utility::tokenize(s, ':', got);
+  PBT_ASSERT_MSG(got == want, "tokenize of " << want.size() << " tokens (longest " << [&] { size_t m = 0; for (auto &t : want) m = std::max(m, t.size()); return m; }() << " chars) returned " << got.size() << " tokens");
+  // the same through PseudoURL: type://<file>:<name>=<long value>
+  if (want.size() >= 2) {
+    S url = "t://" + want[0];
+    for (size_t i = 1; i < want.size(); ++i)
+      url += ":p" + std::to_string(i) + "=" + want[i];
+    utility::PseudoURL u(url);
+    PBT_ASSERT_MSG(u.getFileName() == want[0], "PseudoURL with a " << want[0].size() << "-char file name lost it");
+    for (size_t i = 1; i < want.size(); ++i)
+      PBT_ASSERT_MSG(u.hasParam("p" + std::to_string(i)) && u.getValue("p" + std::to_string(i)) == want[i], "PseudoURL parameter " << i << " (" << want[i].size() << " chars) lost");
+  }
+  bool longTok = false;
+  for (auto &t : want)
+    longTok = longTok || t.size() >= 999;
+  ctx.nt(longTok && want.size() >= 2);
+  if (longTok)
+    ctx.label("token>=999");
 }
 static void p_prefix(const std::tuple<S, S> &c, pbt::Ctx &ctx)
 {
@@ -517,6 +594,9 @@ static void register_properties()
   pbt::property<S>("split_char", 4000, strOver("ab:", 12), p_split_char);
   pbt::property<std::tuple<S, bool>>("split_set", 4000, gen::tuple(strOver("ab:=", 12), gen::arbitrary<bool>()), p_split_set);
   pbt::property<S>("tokenize", 4000, strOver("ab:", 12), p_tokenize);
+  pbt::property<std::tuple<S, bool, int>>("split_highbit", 3000,
+      gen::tuple(strOver(std::string("a, \xA0\xAC\xE1\xC3"), 12), gen::arbitrary<bool>(), pbt::range<int>(0, 1)), p_split_highbit);
+  pbt::property<std::tuple<std::vector<int>, int>>("tokenize_long", 300, gen::tuple(pbt::vec(pbt::range<int>(0, 10), 5), pbt::range<int>(0, 7)), p_tokenize_long);
   pbt::property<std::tuple<S, S>>("prefix", 4000, gen::tuple(strOver("ab", 8), strOver("ab", 8)), p_prefix);
   pbt::property<S>("case", 1500, strOver("aZbQ:._9", 10), p_case);
 
